@@ -52,6 +52,9 @@ struct AllocConfig {
   uint64_t env_seed = 0;
   bool quarantine = false;
   bool pad = true;            // seeded front padding (perturb mode)
+  bool descending = false;    // serve requests from an arena at DEscending
+                              // addresses (flips the relative order of objects
+                              // allocated one after the other)
 };
 
 // Start/stop a measured call. Begin resets stats and declared counts.
@@ -77,6 +80,10 @@ extern void (*g_alloc_yield)(int kind);
 // Stateless cap for multi-threaded engines: requests above it are refused
 // with bad_alloc whatever else is configured (0 = off).
 void AllocSetHardCap(uint64_t bytes);
+
+// Forgets everything placed in the descending arena (call between plans, when
+// no object allocated from it is alive any more).
+void AllocArenaReset();
 
 // Flush the quarantine (perturb mode).
 void AllocFlushQuarantine();
